@@ -134,6 +134,44 @@ func weightless(p []byte) string {
 	return string(encodeProof(nodes))
 }
 
+// branchWeights lists the child weights of every branch element of a proof.
+func branchWeights(p []byte) string {
+	_, nodes, err := decodeProof(p)
+	if err != nil {
+		return "!"
+	}
+	out := ""
+	for _, n := range nodes {
+		if n.Branch != nil {
+			for i, c := range n.Branch.Children {
+				if len(c) >= 40 {
+					out += fmt.Sprintf("%d:%x;", i, c[32:40])
+				}
+			}
+			out += "|"
+		}
+	}
+	return out
+}
+
+// reweightedOntoARealEntry: the value an accepted forgery returns belongs to a real entry of the trie, and the forgery
+// differs from that entry's honest proof in the child weights of some branch - the descent was steered there by weights
+// that the root does not authenticate (the listed finding), whatever else was changed in fields the verifier ignores.
+func reweightedOntoARealEntry(w *world, proof, v []byte) bool {
+	var cum uint64
+	for _, e := range w.entries {
+		if bytes.Equal(e.Value, v) {
+			_, hp, err := w.trie.GetBlockProof(cum + 1)
+			if err != nil {
+				return false
+			}
+			return branchWeights(proof) != branchWeights(hp)
+		}
+		cum += e.Weight
+	}
+	return false
+}
+
 type world struct {
 	entries []refwmpt.Entry
 	root    []byte
@@ -275,6 +313,10 @@ func judgeWith(t fataler, w *world, block uint64, proof []byte, honest []byte, w
 	}
 	if ev.Known(findReweight) && weightless(proof) == weightless(honest) {
 		ev.Excluded(findReweight + ": accepted forgery that differs from the honest proof only in branch child weights")
+		return "known-reweight-forgery"
+	}
+	if ev.Known(findReweight) && reweightedOntoARealEntry(w, proof, v) {
+		ev.Excluded(findReweight + ": accepted forgery that returns another real entry's value and differs from that entry's honest proof in branch child weights (the offsets were shifted)")
 		return "known-reweight-forgery"
 	}
 	if ev.Known(findKind) && kindConfusion(proof, honest) {
